@@ -132,13 +132,17 @@ P_End(st, e)   == Ready(st) /\ {"bincode", "json"} \subseteq st.fmts
 E_Built(st, e) == [Idle EXCEPT !.phase = "built", !.det = e.det, !.sup = e.sup, !.prec = e.prec,
                                !.hasEq = e.hasEq, !.obs = e.obs, !.dig = e.dig, !.digok = e.digok,
                                !.xd = e.xd, !.yd = e.yd]
-E_Ser(st, e) == [st EXCEPT !.phase = IF e.status = "ok" THEN "ser" ELSE "built",
-                           !.fmt = e.fmt, !.fmts = @ \cup {e.fmt}]
+(* the restored / alternative objects are forgotten as soon as the step that
+   concerns them is over (keeps the state small; nothing refers to them later) *)
+ClearR(st) == [st EXCEPT !.robs = NoObs, !.rdig = <<0, 0>>, !.rdigok = FALSE]
+ClearA(st) == [st EXCEPT !.arole = "-", !.ahow = "-", !.aobs = NoObs, !.axd = <<0, 0>>, !.ayd = <<0, 0>>]
+E_Ser(st, e) == [ClearA(ClearR(st)) EXCEPT !.phase = IF e.status = "ok" THEN "ser" ELSE "built",
+                                           !.fmt = e.fmt, !.fmts = @ \cup {e.fmt}]
 E_De(st, e) == IF e.status = "ok"
                THEN [st EXCEPT !.phase = "de", !.robs = e.obs, !.rdig = e.dig, !.rdigok = e.digok]
                ELSE [st EXCEPT !.phase = "built"]
-E_Eq(st, e) == [st EXCEPT !.phase = "built", !.selfDone = (@ \/ e.kind = "self")]
-E_Alt(st, e) == [st EXCEPT !.phase = IF e.status = "ok" THEN "alt" ELSE "built",
+E_Eq(st, e) == [ClearA(ClearR(st)) EXCEPT !.phase = "built", !.selfDone = (@ \/ e.kind = "self")]
+E_Alt(st, e) == [ClearR(st) EXCEPT !.phase = IF e.status = "ok" THEN "alt" ELSE "built",
                            !.arole = e.role, !.ahow = e.how, !.aobs = e.obs,
                            !.axd = e.xd, !.ayd = e.yd]
 E_End(st, e) == Idle
